@@ -114,11 +114,10 @@ def vacuous_actions(res, ignore=()):
     return [a for a, (t, d) in res.coverage.items() if t == 0 and a not in ignore]
 
 
-def read_dump(path):
-    """Records dumped with CSVWrite("%1$s", <<ToJson(rec)>>, file): one JSON value per line."""
-    out = []
+def iter_dump(path):
+    """Like read_dump, one record at a time (large dumps)."""
     if not os.path.exists(path):
-        return out
+        return
     with open(path) as f:
         for line in f:
             line = line.strip()
@@ -126,5 +125,9 @@ def read_dump(path):
                 v = json.loads(line)
                 if isinstance(v, str):      # CSVWrite quotes the JSON text
                     v = json.loads(v)
-                out.append(v)
-    return out
+                yield v
+
+
+def read_dump(path):
+    """Records dumped with CSVWrite("%1$s", <<ToJson(rec)>>, file): one JSON value per line."""
+    return list(iter_dump(path))
